@@ -284,7 +284,8 @@ def main(eng, argv: list[str]) -> int:
     new_sigs = [s for s in by_sig if s not in known_by_sig]
     exit_code = 0
     reported = []
-    os.makedirs(os.path.join(VERIF, "replays"), exist_ok=True)
+    replay_dir = os.environ.get("DSIM_REPLAY_DIR") or os.path.join(VERIF, "replays")
+    os.makedirs(replay_dir, exist_ok=True)
     min_budget = (60.0 if tier == "quick" else 300.0) / max(1, len(new_sigs))
     for sig in sorted(by_sig):
         items = sorted(by_sig[sig], key=lambda it: eng.case_size(it["case"]))
@@ -308,7 +309,7 @@ def main(eng, argv: list[str]) -> int:
             print(f"HARNESS-ERROR: violation {sig} (seed {case.get('seed')}) did not reproduce in a fresh process")
             return 2
         h = hashlib.sha256(sig.encode()).hexdigest()[:8]
-        path = os.path.join(VERIF, "replays", f"{eng.prop}-{h}-{case.get('seed', 0)}.json")
+        path = os.path.join(replay_dir, f"{eng.prop}-{h}-{case.get('seed', 0)}.json")
         with open(path, "w") as f:
             json.dump({"property": eng.prop, "engine": eng.name, "signature": sig, "oracle": vs[0]["oracle"],
                        "violation": vs[0], "case": case, "log_digest": out["digest"],
@@ -347,7 +348,8 @@ def main(eng, argv: list[str]) -> int:
         "known_findings_matched": sorted(s for s in by_sig if s in known_by_sig),
         "workers": nw,
     }
-    write_evidence(eng, tier, base_seed, wall, cov, len(reported))
+    if not os.environ.get("DSIM_NO_EVIDENCE"):  # selftest runs on mutated scratch copies must not touch evidence
+        write_evidence(eng, tier, base_seed, wall, cov, len(reported))
     print(f"{eng.prop} {tier}: runs={total['runs']} steps={total['steps']} distinct_nontrivial={len(total['nontrivial'])} "
           f"faults={sum(faults.values())} violations={len(reported)} known={len(cov['known_findings_matched'])} "
           f"determinism={det['checked']}/{det['mismatches']} wall={wall:.1f}s")
